@@ -312,6 +312,24 @@ package strategy
 //@ use nlast_hold(res(MajorityStrategy_Compute), len(res(MajorityStrategy_Compute)) - len(arg(ActionsToAnnotations, 0, 0)), len(res(MajorityStrategy_Compute)) - len(arg(ActionsToAnnotations, 0, 0)))
 //@ use nlast_skip(res(MajorityStrategy_Compute), arg(ActionsToAnnotations, 0, 0), len(res(MajorityStrategy_Compute)) - len(arg(ActionsToAnnotations, 0, 0)))
 
+// constructors of the combinators: the members are exactly the strategies given, in the order given (Split takes Buy
+// from the first and Sell from the second, so the order is part of the documented function)
+//@ func NewSplitStrategy
+//@ ensures[C06,C07] "fresh-and-separate-objects" fresh(result)
+//@ ensures[C06,C07] "configured-as-given" result.BuyStrategy == buyStrategy && result.SellStrategy == sellStrategy
+
+//@ func NewAndStrategy
+//@ ensures[C04,C05,C06,C07,C14] "fresh-and-separate-objects" fresh(result)
+//@ ensures[C06,C07] "configured-as-given" len(result.Strategies) == len(strategies) && (forall i :: 0 <= i && i < len(strategies) ==> result.Strategies[i] == strategies[i])
+
+//@ func NewOrStrategy
+//@ ensures[C04,C05,C06,C07,C14] "fresh-and-separate-objects" fresh(result)
+//@ ensures[C06,C07] "configured-as-given" len(result.Strategies) == len(strategies) && (forall i :: 0 <= i && i < len(strategies) ==> result.Strategies[i] == strategies[i])
+
+//@ func NewMajorityStrategyWith
+//@ ensures[C04,C05,C06,C07,C14] "fresh-and-separate-objects" fresh(result)
+//@ ensures[C06,C07] "configured-as-given" len(result.Strategies) == len(strategies) && (forall i :: 0 <= i && i < len(strategies) ==> result.Strategies[i] == strategies[i])
+
 // ---- generated constructor contracts (govc genctor; do not edit by hand) ----
 // what each New* function returns, read off its literal: fresh, pairwise separate sub-objects, fields equal to the
 // arguments / constants they are initialised with (transitively through nested constructors); proved, not assumed
